@@ -151,9 +151,30 @@ def _log(a, ctx):
     return np.log(a)
 
 
-def _logzero(a, ctx):
+def _literal_leaf(node, ctx):
+    """a literal, a parameter or a data column: its value is exactly the same number in every evaluator"""
+    while node[0] == 'share':
+        node = ctx.shared[node[1]]
+    return node[0] in ('num', 'beta', 'var')
+
+
+def _log_node(node, ctx):
+    a = ev(node[1], ctx)
+    # a COMPUTED argument within 1e-6 of zero is ill-conditioned (out of the regular domain); a tiny positive literal,
+    # parameter or data value is an exact positive argument
+    if np.any(_re(a) <= (0.0 if _literal_leaf(node[1], ctx) else 1e-6)):
+        raise OutOfDomain('log of non-positive / near-zero')
+    return np.log(a)
+
+
+def _logzero_node(node, ctx):
+    a = ev(node[1], ctx)
+    return _logzero(a, ctx, exact=_literal_leaf(node[1], ctx))
+
+
+def _logzero(a, ctx, exact=False):
     r = _re(a)
-    if np.any((r < 0) | ((r != 0) & (np.abs(r) <= 1e-6))):
+    if np.any((r < 0) | ((r != 0) & (np.abs(r) <= 1e-6) & (not exact))):
         raise OutOfDomain('logzero of negative / near zero')
     out = np.zeros_like(a)
     nz = r != 0
@@ -389,8 +410,8 @@ _OPS = {
     'rv': _rv,
     'neg': _un(lambda a, c: -a),
     'exp': _un(lambda a, c: np.exp(a)),
-    'log': _un(_log),
-    'logzero': _un(_logzero),
+    'log': _log_node,
+    'logzero': _logzero_node,
     'sin': _un(lambda a, c: np.sin(a)),
     'cos': _un(lambda a, c: np.cos(a)),
     'ncdf': _un(_ncdf),
